@@ -128,7 +128,10 @@ Compile(prog, k) ==
      [cols |-> [j \in 1..Len(cs) |-> Mk(cs[j])],
       (* a single index is unnamed unless check_name is given; several form a MultiIndex with names *)
       index |-> [j \in 1..Len(xs) |-> [Mk(xs[j]) EXCEPT !.key = IF Len(xs) = 1 THEN None ELSE @, !.parsers = <<>>]],
-      checks |-> FrameChecks(prog, k),
+      (* dataframe-level checks: the @dataframe_check methods, then the REGISTERED checks named in Config (an unknown     *)
+      (* Config attribute whose name is a registered check method; merged root to leaf like the options)                  *)
+      checks |-> FrameChecks(prog, k) \o (IF Opt(prog, k, "sum_le", "none") = "none" THEN <<>>
+                                           ELSE << [k |-> "registered", name |-> "sum_le", arg |-> Opt(prog, k, "sum_le", "none")] >>),
       strict |-> Opt(prog, k, "strict", "F"), coerce |-> Opt(prog, k, "coerce", "F"),
       ordered |-> Opt(prog, k, "ordered", "F"),
       name |-> OwnOpt(prog, k, "name", "class"),        \* "class" = the class's own __name__
@@ -144,7 +147,7 @@ Cls(parent, fa, fb, cfg, chk, dfc, prs) == [parent |-> parent, fa |-> fa, fb |->
 RootFA == {F("Series[int]", "ge0"), F("Series[float]", "ge0_nona"), F("Series[int]", "omitted"), F("Optional[Series[int]]", "nullable_coerce"),
            F("Index[int]", "default"), F("int", "alias_x")}
 RootFB == {Inherit, F("Series[str]", "default")}
-RootCfg == {{}, {<<"strict", "T">>, <<"coerce", "T">>}, {<<"ordered", "T">>, <<"name", "nm">>}}
+RootCfg == {{}, {<<"strict", "T">>, <<"coerce", "T">>}, {<<"ordered", "T">>, <<"name", "nm">>}, {<<"sum_le", "100">>}}
 RootChk == {NoMethod, M("pos", TRUE), M("pos", FALSE)}
 RootDfc == {NoMethod, M("sum_pos", FALSE)}
 RootPrs == {NoMethod, M("abs", FALSE)}
@@ -153,7 +156,7 @@ Roots == {Cls(0, fa, fb, cfg, chk, dfc, prs) : fa \in RootFA, fb \in RootFB, cfg
 KidFA == {Inherit, F("Series[float]", "ge1_le5"), F("Series[float]", "ge0_nona"), F("Series[int]", "omitted"), F("Series[int]", "unique"), F("Index[int]", "default")}
 KidFB == {Inherit, F("Series[str]", "nullable_coerce"), F("Index[str]", "default")}     \* a second Index field: a MultiIndex
 KidCfg == {{}, {<<"strict", "filter">>}, {<<"coerce", "F">>, <<"add_missing_columns", "T">>}, {<<"name", "kid">>},
-           {<<"multiindex_strict", "T">>, <<"multiindex_coerce", "T">>}}
+           {<<"multiindex_strict", "T">>, <<"multiindex_coerce", "T">>}, {<<"sum_le", "5">>}}
 KidChk == {NoMethod, M("even", FALSE), M("even", TRUE)}
 KidDfc == {NoMethod, M("first_even", FALSE)}
 KidPrs == {NoMethod, M("plus1", FALSE)}
